@@ -250,6 +250,6 @@ LANES = [
     Lane('dt_off', lambda tier: cases(tier, 'dt_off'), check, 4000, 60000, candidates),
     Lane('dt_on', lambda tier: cases(tier, 'dt_on'), check, 2000, 30000, candidates),
     Lane('unless', lambda tier: unless_cases(tier), check_unless, 1000, 15000, cand_unless),
-    Lane('ltl_off', lambda tier: cases(tier, 'ltl_off'), check, 1200, 15000, std_candidates),
-    Lane('ltl_on', lambda tier: cases(tier, 'ltl_on'), check, 1000, 15000, std_candidates),
+    Lane('ltl_off', lambda tier: cases(tier, 'ltl_off'), check, 3000, 30000, std_candidates),
+    Lane('ltl_on', lambda tier: cases(tier, 'ltl_on'), check, 5000, 50000, std_candidates),
 ]
